@@ -412,7 +412,7 @@ var specTimed = pbt.Register(&pbt.Spec[TCase]{
 		"Oracle: conservation on the far side (Send true <=> the value is found exactly once in peer receptions + buffer, false <=> not found; Recv (v,true) <=> v was the FIFO head and left the channel, (zero,false) <=> contents unchanged), " +
 		"forced outcomes in the asymmetric classes (space & unlimited => true; nobody ever acts & 1ms/cancelled => false; closed+drained => false), 'must not return yet' asserted only while the harness itself withholds the peer " +
 		"(established from the call's goroutine state, never from a timer); either outcome where operation and limit can both be ready; non-trivial = forced-false, either-outcome or must-block class",
-	Gen: genTimed, Run: RunTimed, Quick: 1500, Thorough: 12000, Crashy: true, Retries: 20,
+	Gen: genTimed, Run: RunTimed, Quick: 1500, Thorough: 6000, Crashy: true, Retries: 20,
 	Assumes: []string{"Go runtime timers and select fairness are not controlled; racing classes accept either outcome and only check conservation"},
 })
 
